@@ -117,7 +117,8 @@ func resolveCharGen(p *core.Program) (*charGen, string) {
 		}
 		g.drawIdx = ia
 		g.chars = ia.X
-		if c, ok := core.StripType(ia.X).(*ssa.Call); ok {
+		// the alphabet may arrive through a merge left by an expanded helper that returned (alphabet, error)
+		if c, ok := core.StripType(core.SelectedEdge(core.StripType(ia.X), core.Guards(ia.Block()))).(*ssa.Call); ok {
 			g.builder = c
 			if len(c.Call.Args) == 1 {
 				if al, ok := c.Call.Args[0].(*ssa.Alloc); ok {
@@ -721,6 +722,10 @@ func checkFilterAllOf(p *core.Program, r *core.Report, g *charGen, rule string) 
 						if k, isC := core.ConstInt(rel.Y); isC && (rel.Op == token.GTR && k == 0 || rel.Op == token.NEQ && k == 0 || rel.Op == token.GEQ && k == 1) {
 							continue
 						}
+					}
+					// a nil test of the swept element's set (the size accessor written out): a nil set is an empty set
+					if rel.Op == token.NEQ && core.IsNilConst(rel.Y) && isSetTyped(rel.X) {
+						continue
 					}
 				}
 				extra = "additional condition at " + p.InstrPos(gd.If)
